@@ -134,3 +134,96 @@ RECIPES += [
      "    PyTuple_SET_ITEM(res, 1, (PyObject *)rf_array);\n    return res;", "the result tuple built with the two tables swapped"),
     ("C05", "neutral", [], C, "    return Py_BuildValue(\"N\", rf_array);", "    PyObject *res = Py_BuildValue(\"O\", rf_array);\n    Py_DECREF(rf_array);\n    return res;", "format O plus a release instead of format N"),
 ]
+
+# ---------------------------------------------------------------------------------------------------------------------
+# pass 3 (control state: loop flags, small-enum steering variables, where a loop test is made, peeled entry, dependent counters)
+_PY1_LOOP = ("    for k in range(L):\n        # /* step 1 from [1]: */\n        j += 1\n        pts[j] = peaks[k]\n        # /* step 2 from [1]: */\n        while j > 1:\n"
+             "            # /* step 3 from [1]: */\n            Y = abs(pts[j - 2] - pts[j - 1])\n            X = abs(pts[j - 1] - pts[j])\n            if X < Y:\n                break\n"
+             "            if j == 2:\n                # /* step 5 from [1]: */\n                # /* [count Y as half cycle] */\n                n += 1\n                rf[n, 0] = Y / 2\n"
+             "                rf[n, 1] = (pts[0] + pts[1]) / 2\n                rf[n, 2] = 0.5\n                pts[0] = pts[1]  # /* discard j-2 pt */\n                pts[1] = pts[2]\n"
+             "                j = 1\n            else:\n                # /* step 4 from [1]: */\n                # /* [count Y as full cycle] */\n                fullcyclesp1 += 1\n"
+             "                n += 1\n                rf[n, 0] = Y / 2\n                rf[n, 1] = (pts[j - 2] + pts[j - 1]) / 2\n                rf[n, 2] = 1.0\n"
+             "                pts[j - 2] = pts[j]  # /* discard j-2, j-1 pts */\n                j -= 2\n\n")
+
+def _py1(*pairs):
+    """_PY1_LOOP with the given (old, new) replacements, each of which must apply exactly once"""
+    t = _PY1_LOOP
+    for old, new in pairs:
+        assert t.count(old) == 1, old
+        t = t.replace(old, new)
+    return t
+
+
+def _c1(*pairs):
+    t = _C1_STORE
+    for old, new in pairs:
+        assert t.count(old) == 1, old
+        t = t.replace(old, new)
+    return t
+
+
+# a loop flag instead of `break` (the fresh refactoring N14), reset at the top of every pass of the count loop
+_PY1_FLAG = _py1(("        while j > 1:\n", "        readnext = False  # True when the next peak has to be read\n        while j > 1 and not readnext:\n"),
+                 ("            if X < Y:\n                break\n            if j == 2:\n", "            if X < Y:\n                readnext = True\n            elif j == 2:\n"))
+_C1_FLAG = _c1(("      while (j > 1) {\n", "      readnext = 0;\n      while (!readnext && j > 1) {\n"),
+               ("        if (X < Y) break;\n        if (j == 2) {\n", "        if (X < Y) {\n          readnext = 1;\n        }\n        else if (j == 2) {\n"),
+               ("    j = -1;\n    for (k=0; k<L; ++k) {\n", "    int readnext;\n    j = -1;\n    for (k=0; k<L; ++k) {\n"))
+# the inner loop steered by a flag computed from comparisons
+_PY1_CLOSED = _py1(("        while j > 1:\n", "        closed = j > 1  # a range is ready to be examined\n        while closed:\n"),
+                   ("            if X < Y:\n                break\n            if j == 2:\n", "            if X < Y:\n                closed = False\n            elif j == 2:\n"),
+                   ("                pts[1] = pts[2]\n                j = 1\n", "                pts[1] = pts[2]\n                j = 1\n                closed = False\n"),
+                   ("                j -= 2\n", "                j -= 2\n                closed = j > 1\n"))
+# `continue` while fewer than three points are stacked, inner loop tested at its bottom
+_PY1_CONT = _py1(("        while j > 1:\n", "        if j < 2:\n            continue\n        while True:\n"), ("                j -= 2\n\n", "                j -= 2\n            if j < 2:\n                break\n\n"))
+_C1_DO = _c1(("      while (j > 1) {\n", "      if (j < 2) continue;\n      do {\n"), ("          j -= 2;\n        }\n      }\n    }\n", "          j -= 2;\n        }\n      } while (j > 1);\n    }\n"))
+# the first point pushed before the count loop
+_PY1_PEEL = _py1(("    for k in range(L):\n        # /* step 1 from [1]: */\n", "    j += 1\n    pts[j] = peaks[0]\n    for k in range(1, L):\n        # /* step 1 from [1]: */\n"))
+# the count loop driven by a flag that is cleared when the last point has been read
+_PY1_MORE = _py1(("    for k in range(L):\n        # /* step 1 from [1]: */\n", "    k = 0\n    more = True\n    while more:\n        # /* step 1 from [1]: */\n"),
+                 ("                j -= 2\n\n", "                j -= 2\n        k += 1\n        if k == L:\n            more = False\n\n"))
+_C1_MORE = _c1(("    j = -1;\n    for (k=0; k<L; ++k) {\n", "    int more = 1;\n    j = -1;\n    k = 0;\n    while (more) {\n"),
+               ("          j -= 2;\n        }\n      }\n    }\n", "          j -= 2;\n        }\n      }\n      if (++k == L) more = 0;\n    }\n"))
+# a small-enum `action` decided first and dispatched on
+_PY1_ENUM = _py1(("            if X < Y:\n                break\n            if j == 2:\n",
+                  "            if X < Y:\n                action = 0  # read the next point\n            elif j == 2:\n                action = 1  # half cycle\n            else:\n"
+                  "                action = 2  # full cycle\n            if action == 0:\n                break\n            if action == 1:\n"))
+_C1_ENUM = _c1(("        if (X < Y) break;\n        if (j == 2) {\n",
+                "        enum { READ_NEXT, HALF_CYCLE, FULL_CYCLE } action;\n        if (X < Y)\n          action = READ_NEXT;\n        else if (j == 2)\n          action = HALF_CYCLE;\n"
+                "        else\n          action = FULL_CYCLE;\n        if (action == READ_NEXT) break;\n        if (action == HALF_CYCLE) {\n"))
+# step 6 counting the remaining ranges down (a second counter in lock-step with the first)
+_PY1_STEP6_LEFT = ("    left = j  # ranges still to be counted\n    k = 0\n    while left > 0:\n        n += 1\n        rf[n, 0] = abs(pts[k] - pts[k + 1]) / 2\n        rf[n, 1] = (pts[k] + pts[k + 1]) / 2\n"
+                   "        rf[n, 2] = 0.5\n        k += 1\n        left -= 1\n\n    return rf[: L - fullcyclesp1]\n")
+
+RECIPES += [
+    # ---- neutral: control state
+    ("C05", "neutral", [], PY, _PY1_LOOP, _PY1_FLAG, "_rainflow1: `break` replaced by a loop flag tested in the loop condition (the C side keeps `break`)"),
+    ("C05", "neutral", [], C, _C1_STORE, _C1_FLAG, "rainflow1: `break` replaced by a loop flag (the Python side keeps `break`)"),
+    ("C05", "neutral", [], PY, _PY1_LOOP, _PY1_CLOSED, "_rainflow1: inner loop steered by a flag computed from comparisons (closed = j > 1)"),
+    ("C05", "neutral", [], PY, _PY1_LOOP, _PY1_CONT, "_rainflow1: `continue` while fewer than three points are stacked, inner loop bottom-tested"),
+    ("C05", "neutral", [], C, _C1_STORE, _C1_DO, "rainflow1: `continue` + do-while for the inner loop"),
+    ("C05", "neutral", [], PY, _PY1_LOOP, _PY1_PEEL, "_rainflow1: the first point pushed before the count loop (k from 1)"),
+    ("C05", "neutral", [], PY, _PY1_LOOP, _PY1_MORE, "_rainflow1: count loop driven by a `more` flag cleared after the last point"),
+    ("C05", "neutral", [], C, _C1_STORE, _C1_MORE, "rainflow1: count loop driven by a `more` flag cleared after the last point"),
+    ("C05", "neutral", [], PY, _PY1_LOOP, _PY1_ENUM, "_rainflow1: a small-enum `action` decided first and dispatched on"),
+    ("C05", "neutral", [], C, _C1_STORE, _C1_ENUM, "rainflow1: a function-local enum `action` decided first and dispatched on"),
+    ("C05", "neutral", [], PY, _PY1_STEP6, _PY1_STEP6_LEFT, "_rainflow1: step 6 counts the remaining ranges down (dependent counter), no carried points"),
+    ("C05", "neutral", [], PY, _PY1_LOOP, _py1(("            if X < Y:\n                break\n            if j == 2:\n", "            starts = j == 2  # Y contains the starting point\n            if X < Y:\n                break\n            if starts:\n")),
+     "_rainflow1: the `j == 2` decision taken before the X < Y test and kept in a boolean"),
+    ("C05", "neutral", [], PY, _PY1_LOOP, _py1(("            if X < Y:\n                break\n            if j == 2:\n", "            if not X < Y:\n                pass\n            else:\n                break\n            if j == 2:\n")),
+     "_rainflow1: NaN-safe negation `not X < Y` with swapped arms"),
+    # ---- break: the same constructs with a defect
+    ("C05", "break", ["C05-R1", "C05-R3"], PY, _PY1_LOOP, _PY1_FLAG.replace("        readnext = False  # True when the next peak has to be read\n", "").replace("    for k in range(L):\n", "    readnext = False\n    for k in range(L):\n"),
+     "loop flag set on X < Y but never reset: after the first X < Y no range is examined again"),
+    ("C05", "break", ["C05-R1", "C05-R3"], C, _C1_STORE, _C1_FLAG.replace("      readnext = 0;\n      while (!readnext && j > 1) {\n", "      while (!readnext && j > 1) {\n").replace("    int readnext;\n", "    int readnext = 0;\n"),
+     "C loop flag initialised once and never reset"),
+    ("C05", "break", ["C05-R1", "C05-R3"], PY, _PY1_LOOP, _PY1_CLOSED.replace("                closed = j > 1\n", "                closed = j > 2\n"), "flag recomputed with the wrong bound after a full cycle (a closed range is left on the stack)"),
+    ("C05", "break", ["C05-R1", "C05-R3", "C05-R4"], PY, _PY1_LOOP, _PY1_CONT.replace("        if j < 2:\n            continue\n", "        if j < 3:\n            continue\n"), "`continue` until four points are stacked"),
+    ("C05", "break", ["C05-R1", "C05-R3", "C05-R4"], PY, _PY1_LOOP, _PY1_PEEL.replace("for k in range(1, L):", "for k in range(L):"), "first point pushed before the loop and again inside it"),
+    ("C05", "break", ["C05-R1", "C05-R3", "C05-R4"], PY, _PY1_LOOP, _PY1_MORE.replace("        if k == L:\n", "        if k == L - 1:\n"), "`more` flag cleared one point early: the last point is never read"),
+    ("C05", "break", ["C05-R1", "C05-R3", "C05-R4"], C, _C1_STORE, _C1_MORE.replace("if (++k == L) more = 0;", "if (++k == L + 1) more = 0;"), "C `more` flag cleared one point late: reads past the input"),
+    ("C05", "break", ["C05-R1", "C05-R3", "C05-R4"], PY, _PY1_LOOP, _PY1_ENUM.replace("            if action == 1:\n", "            if action == 2:\n"), "enum dispatch with half and full cycles swapped"),
+    ("C05", "break", ["C05-R4"], PY, _PY1_STEP6, _PY1_STEP6_LEFT.replace("    left = j  #", "    left = j - 1  #"), "step 6 counting down from one range too few"),
+    ("C05", "break", ["C05-R1", "C05-R3"], PY, _PY1_LOOP, _py1(("            if X < Y:\n                break\n            if j == 2:\n", "            if X >= Y:\n                pass\n            else:\n                break\n            if j == 2:\n")),
+     "`X >= Y` for `not X < Y`: differs when a NaN is involved"),
+    ("C05", "break", ["C05-R1", "C05-R3"], PY, _PY1_LOOP, _py1(("            if X < Y:\n                break\n", "            if X < Y * (1 - 1e-12):\n                break\n")), "relative tolerance in the range comparison"),
+]
